@@ -84,7 +84,9 @@ func decErrClass(err error) string {
 		return "MetaKVMissing"
 	case errors.Is(err, protocol.ErrUnsupportedCompressor):
 		return "UnsupportedCompressor"
-	case errors.Is(err, protocol.ErrInvalidFrame):
+	case strings.Contains(err.Error(), "section length exceeds frame length"):
+		// protocol.ErrInvalidFrame, matched by its text so that the harness still builds (and can look for
+		// a failing input) against a tree that does not have it
 		return "InvalidFrame"
 	case strings.HasPrefix(err.Error(), "wrong magic number"):
 		return "BadMagic"
